@@ -180,20 +180,22 @@ def r06_2(ctx: Ctx):
         obs.append(ctx.ob("R06.2", f, f.node, detail="every iteration steps its deme exactly once or is a hibernation skip", construct="iteration-paths"))
     # the accessor filters on is_active
     acc = ctx.prog.own_method("DemeTree", "active_demes")
-    ok = False
-    for n in body_walk(acc.node):
-        if isinstance(n, ast.comprehension):
-            for cond in n.ifs:
-                txt = norm(cond)
-                if txt.endswith(".is_active") or txt.endswith("._active"):
-                    ok = True
-        if isinstance(n, ast.If):
-            txt = norm(n.test)
-            if txt.endswith(".is_active") or txt.endswith("._active"):
-                ok = True
+    from .common import deme_listing
+
+    dl = deme_listing(ctx, "DemeTree", "active_demes")
+    if dl["levels"] is None or any(x.startswith("?") for x in dl["filters"]):
+        st_acc, why_acc = INCONCLUSIVE, f"cannot tell which demes active_demes keeps ({dl['why'] or sorted(dl['filters'])})"
+    elif "is_active" not in dl["filters"]:
+        st_acc, why_acc = VIOLATION, "active_demes does not filter on is_active"
+    elif "not is_active" in dl["filters"]:
+        st_acc, why_acc = VIOLATION, "active_demes keeps the inactive demes"
+    elif dl["levels"] < 0:
+        st_acc, why_acc = VIOLATION, f"active_demes leaves out the last {-dl['levels']} level(s): active leaves are never stepped"
+    else:
+        st_acc, why_acc = OK, ""
     isact = deme_base.methods.get("is_active")
     ok2 = isact is not None and any(isinstance(r, ast.Return) and is_self_attr(r.value, "_active", isact.self_name()) for r in body_walk(isact.node))
-    obs.append(ctx.ob("R06.2", acc, acc.node, status=OK if ok else VIOLATION, detail="active_demes keeps exactly the demes with is_active" if ok else "active_demes does not filter on is_active", construct="active_demes-filter"))
+    obs.append(ctx.ob("R06.2", acc, acc.node, status=st_acc, detail="active_demes keeps exactly the demes with is_active" if st_acc == OK else why_acc, construct="active_demes-filter"))
     obs.append(ctx.ob("R06.2", isact or acc, (isact or acc).node, status=OK if ok2 else VIOLATION, detail="is_active returns _active" if ok2 else "is_active is not `return self._active`", construct="is_active"))
     return obs
 
